@@ -33,6 +33,79 @@ def every_user_looks(sess, desc):
             sess.restore(u, '^%s$' % sess.snapname[s])
 
 
+def command_line_flow(run, seed):
+    """the keys are made by the COMMAND LINE (python -m replicat init / add-key --shared / --clone / independent, every command its own
+    process, passwords in multi-line files, keys written with -o), snapshots are taken through it too; the resulting key files and the
+    directory of the local backend are then judged like any other session: what add-key was asked for is what the key is, every key opens
+    with the full content of its password file and with nothing else, access follows the key relations."""
+    import os
+    import random
+    import subprocess
+    import sys
+    from pathlib import Path
+    from .. import harness, membackend, refcodec, repodrv
+    from . import c03_local
+    r = random.Random(seed)
+    repo = os.environ.get('RV_REPO', '/repo')
+    env = dict(os.environ, PYTHONPATH=repo + os.pathsep + '/verif', PYTHONDONTWRITEBYTECODE='1', HOME='/nonexistent-home')
+    env.pop('REPLICAT_VERIF', None)
+    with harness.scratch() as d:
+        root = d / 'localrepo'
+        root.mkdir()
+        pwf, keyf, pws = {}, {}, {}
+        for u in 'abcd':
+            # a pass phrase of two lines (the whole content of the file is the password), for c the clone of a: the same file
+            pws[u] = pws['a'] if u == 'c' else b'first line %s\nsecond line %s\n' % (r.randbytes(3).hex().encode(), u.encode())
+            pwf[u] = d / ('password-%s.txt' % u)
+            pwf[u].write_bytes(pws[u])
+            keyf[u] = d / ('key-%s.json' % u)
+        fast = ['--encryption.kdf.n', '4']
+
+        def cli(*args, hashseed=0):
+            p = subprocess.run([sys.executable, '-m', 'replicat'] + [str(a) for a in args], env=dict(env, PYTHONHASHSEED=str(hashseed)), capture_output=True, timeout=300, cwd=str(d))
+            return p
+        common = ['-r', 'local:%s' % root, '--ignore-config', '--no-cache', '-q']
+        steps = [cli('init', *common, '-P', pwf['a'], '-o', keyf['a'], *fast, '--chunking.min-length', '64', '--chunking.max-length', '256'),
+                 cli('add-key', *common, '-K', keyf['a'], '-P', pwf['a'], '-N', pwf['b'], '--shared', '-o', keyf['b'], *fast),
+                 cli('add-key', *common, '-K', keyf['a'], '-P', pwf['a'], '--clone', '-o', keyf['c'], *fast),
+                 cli('add-key', *common, '-N', pwf['d'], '-o', keyf['d'], *fast)]
+        for i, p in enumerate(steps):
+            if p.returncode != 0:
+                from .. import tlc
+                raise tlc.MachineryError('command-line setup step %d failed: %s' % (i, p.stderr[-400:].decode(errors='replace')))
+        objs, _ = c03_local.observe(str(root))
+        st = membackend.Store(objs)
+        try:
+            s = repodrv.Session('cli', d / 'sess', seed=seed, store=st, prebuilt={u: (pws[u], keyf[u].read_bytes()) for u in 'abcd'})
+        except refcodec.FormatError as ex:
+            # a key file written by the command line does not open with the full content of its own password file (independent codec)
+            run.violation('P:UnlockOwnPasswordOnly', 'any', {'setup': 'command line', 'what': 'a key made by init / add-key does not open with its own password file', 'error': str(ex)})
+            return None
+        desc = ['init / add-key --shared (b) / add-key --clone (c) / add-key (d) through the command line']
+        # what was asked for is what the keys are
+        ka = s.holders['a']
+        for u, kind in (('b', 'shared'), ('c', 'clone'), ('d', 'indep')):
+            ku = s.holders[u]
+            s._marker('out', {'a': 'keyrel', 'p': 1, 'u': u, 'of': 'a', 'kind': kind, 'samefam': s.fam[u] == s.fam['a'], 'samekey': ku.userkey == ka.userkey}, 'out')
+        # snapshots through the command line, each in its own process
+        files = [s.write_file('doc%d.bin' % i, r.randbytes(r.choice([300, 900, 2500]))) for i in range(3)]
+        for n, u in enumerate('abcda'):
+            client = 'cli%d' % n
+            s._marker('begin', {'want': s.capture(files), 'D': [], 'unknown': False, 'allempty': False, 'p': 1, 'k': 'snap', 'u': u}, client)
+            p = cli('snapshot', *common, '-K', keyf[u], '-P', pwf[u], s.src, hashseed=77 + n)
+            now, _ = c03_local.observe(str(root))
+            new = [nm for nm in now if s.store.objs.get(nm) != now[nm]]
+            for nm in sorted(new, key=lambda x: (x.startswith('snapshots/'), x)):
+                with s.store.lock:
+                    s.store.objs[nm] = now[nm]
+                    s.store.events.append(('put', nm, now[nm], client))
+            s._marker('end', {'p': 1, 'ok': p.returncode == 0, 'fault': False, 'etype': '~' if p.returncode == 0 else p.stderr[-200:].decode(errors='replace'), 'hung': False}, client)
+            desc.append('snapshot(%s) through the command line -> rc %d, %d new objects' % (u, p.returncode, len(new)))
+        every_user_looks(s, desc)
+        run.case(('command-line-flow', seed))
+        return s.trace(extra={'history': desc, 'opts': {'setup': 'command line'}})
+
+
 def main(run):
     quick = run.tier == 'quick'
     rc.design(run, ['mixed', 'shared'] if quick else ['plain', 'same', 'shared', 'indep', 'mixed', 'chain'],
@@ -46,7 +119,10 @@ def main(run):
                           post=every_user_looks)
     # chains of add-key: shared-of-shared, clone of an independent key
     traces += rc.histories(run, ['chain'], range(run.seed * 100 + 60, run.seed * 100 + 60 + (2 if quick else 20)), 14 if quick else 30, post=every_user_looks)
-    rc.validate(run, traces, CLAUSES, label='c06.histories')
+    t_cli = command_line_flow(run, run.seed * 10 + 3)
+    if t_cli is not None:
+        traces.append(t_cli)
+    rc.validate(run, traces, CLAUSES + ['P:AddKeyRelation', 'P:RepeatTransfersNothing', 'P:CommandSucceeds'], label='c06.histories')
     run.coverage['rule'] = ('a case is one command history on a key graph (same / shared / clone / independent / mixed) followed by every '
                             'user listing, restoring, deleting foreign snapshots, cleaning, and the unlock matrix; or one replayed TLC behaviour')
     run.assumptions += ['projection by rv/refcodec.py decides who can decrypt what', 'identical-data aliasing is judged by C07 NoAlias']
